@@ -34,6 +34,7 @@ def remove_gen(root):
                 os.remove(os.path.join(d, fn))
 
 
+@common.serialised("corpus")
 def observe(seed, tier):
     key = "corpus-%s-%s-%s" % (common.repo_tree_hash(), gen_modes._hash_sources(), tier)
     cpath = os.path.join(common.CACHE, key + ".json")
